@@ -96,23 +96,12 @@ def check(prog, rep):
         # labels written through `x = out.ravel()` / `out.reshape(-1)`: a view only when `out` is C-contiguous.  An array
         # allocated like the input (zeros_like / empty_like ...) follows the input's layout: for a column-major raster the
         # flat alias is a copy and every store through it is lost.
-        flat = {}
-        for n in f.own_nodes():
-            if isinstance(n, ast.Assign) and isinstance(n.targets[0], ast.Name) and isinstance(n.value, ast.Call) and \
-                    isinstance(n.value.func, ast.Attribute) and n.value.func.attr in ('ravel', 'reshape', 'flatten') and \
-                    isinstance(n.value.func.value, ast.Name):
-                flat[n.targets[0].id] = (n.value.func.value.id, n)
-        stored = [x for x in f.own_nodes() if isinstance(x, ast.Subscript) and isinstance(x.ctx, ast.Store) and isinstance(x.value, ast.Name)
-                  and x.value.id in flat]
-        for x in stored:
-            base, node = flat[x.value.id]
-            allocs = [v for v in f.local_assigns().get(base, []) if isinstance(v, ast.Call)]
-            like = [v for v in allocs if norm(v.func).split('.')[-1].endswith('_like')]
-            if like or node.value.func.attr == 'flatten':
-                rep.add('Q3', f, 'regions', '%s = %s; %s[..] = ...' % (x.value.id, norm(node.value), x.value.id), x.lineno, False,
-                        'labels are written through a flattened alias of `%s`, which is allocated like the input raster (%s): for a '
-                        'column-major raster the alias is a copy and the relabelling is lost' % (base, norm(like[0]) if like else 'flatten() always copies'))
-                return
+        from ..sharedrules import flat_alias_of_like
+        for x, alias, base, node, like in flat_alias_of_like(f, prog):
+            rep.add('Q3', f, 'regions', '%s = %s; %s[..] = ...' % (alias, norm(node.value), alias), x.lineno, False,
+                    'labels are written through a flattened alias of `%s`, which is allocated like the input raster (%s): for a '
+                    'column-major raster the alias is a copy and the relabelling is lost' % (base, norm(like) if like is not None else 'flatten() always copies'))
+            return
         raise e
     outs = returned_arrays(k)
     if len(outs) != 1:
